@@ -4,7 +4,7 @@ from engine.facts import strip_tmpl
 
 LEVEL = "other"
 MIN_OBLIGATIONS = 18
-TECHNIQUE = "def-use history of the rule text (escape -> wildcard -> anchor), CFG rules on the evaluation loop, truth-table evaluation of the rule predicate, writer/reader table agreement (rule regex groups vs stringToQtMsgType keys); evaluation by cases (engine/conc.py) of the type condition over suffix x message type x match through parseRules' stores and Rule::matches; prefix-and-suffix short-cut rule (needs a length test)"
+TECHNIQUE = "def-use history of the rule text (escape -> wildcard -> anchor), CFG rules on the evaluation loop, truth-table evaluation of the rule predicate, writer/reader table agreement (rule regex groups vs stringToQtMsgType keys); evaluation by cases (engine/conc.py) of the type condition over suffix x message type x match through parseRules' stores and Rule::matches; prefix-and-suffix short-cut rule (needs a length test); type-suffix vocabulary rule"
 LEVEL_TEXT = ("Decides the structural clauses of ordered rule evaluation for all rule lists: text flows escape -> '\\\\*'->'.*' -> '^..$'; filter() starts from pass, visits every rule forward "
               "with no early exit and lets each match overwrite the verdict; a rule matches iff regex match AND (untyped OR type equal) — all 8 truth-table rows; the capture groups "
               "of the line grammar agree with how they are consumed; ';' and newline separate rules and a malformed line only skips itself. Verdict equality over all strings is not decided.")
